@@ -225,7 +225,7 @@ def run(check):
     check.rule = ("generated input schemas (strings with length bounds, integers with ranges, floats, bools, string enums, lists, string-keyed maps, nested inline objects, "
                   "references to shared objects, optional fields with and without defaults) x one valid document x every single-point invalidation (missing required, "
                   "wrong type per type, out of range, wrong enum member, unknown field at every nesting level, explicit null for present and omitted fields, documents "
-                  "that are not objects); each document is run through Execute (Go values) and "
+                  "that are not objects) plus input documents written as YAML text (block scalars with every chomping mode, quoting, flow style); each document is run through Execute (Go values) and "
                   "through engine.Workflow.Run (YAML bytes); oracles: invalid => error and no deployment for execution (deploy counter), valid => the whole input seen by "
                   "two different steps and the workflow output equal the reference normalisation (typed values, defaults filled) and equal each other; "
                   "distinct = (schema, invalidation kind, entry point)")
@@ -269,6 +269,24 @@ def run(check):
                 else:
                     case = {"id": cid, "mode": "engine", "files": prog.files(), "scripts": scripts, "runs": [], "extra": {"engine": {"input_yaml": json.dumps(d)}}}
                 items.append((case, {"schema": i, "kind": kind, "entry": entry, "valid": valid, "expected": expected, "doc": d}))
+    # input documents written as YAML text (block scalars, quoting, flow style): the value a string field has is the one the
+    # YAML text denotes, trailing line breaks included
+    ysch = InputSchema({"s": {"type": ("string", {"min": None, "max": 5})}, "t": {"type": "string", "required": False, "default": "dflt"}, "l": {"type": ("list", "string"), "required": False}})
+    yprog = build_program(ysch)
+    yscripts = gen.make_scripts(yprog.steps, {})
+    YDOCS = [("literal-clip", "s: |\n  ab\n", {"s": "ab\n"}), ("literal-strip", "s: |-\n  ab\n", {"s": "ab"}), ("literal-keep", "s: |+\n  ab\n\nt: x\n", {"s": "ab\n\n", "t": "x"}),
+             ("folded", "s: >\n  a\n  b\n", {"s": "a b\n"}), ("folded-strip", "s: >-\n  a\n  b\n", {"s": "a b"}), ("double-quoted-escape", 's: "ab\\n"\n', {"s": "ab\n"}),
+             ("single-quoted", "s: 'a''b'\n", {"s": "a'b"}), ("plain-multiword", "s: a b\nt: 'x: y'\n", {"s": "a b", "t": "x: y"}), ("flow-map", "{s: ab, l: [x, 'y z']}\n", {"s": "ab", "l": ["x", "y z"]}),
+             ("literal-in-list", "s: ab\nl:\n  - |\n    one\n  - two\n", {"s": "ab", "l": ["one\n", "two"]}),
+             ("literal-too-long", "s: |\n  12345\n", None), ("folded-too-long", "s: >\n  123\n  4\n", None), ("keep-too-long", "s: |+\n  1234\n\n", None), ("exactly-max", "s: |-\n  12345\n", {"s": "12345"})]
+    for name, text, doc in YDOCS:
+        cid = "c19-%05d" % idx
+        idx += 1
+        expected = None
+        if doc is not None:
+            expected = ref.normalise_input(ysch, doc)
+        case = {"id": cid, "mode": "engine", "files": yprog.files(), "scripts": yscripts, "runs": [], "extra": {"engine": {"input_yaml": text}}}
+        items.append((case, {"schema": -1, "kind": "yaml-text:" + name if doc is None else "valid", "entry": "engine", "valid": doc is not None, "expected": expected, "doc": text}))
     with harness.Runner() as rn:
         out = rn.run_cases([c for c, _m in items], per_case_timeout=60)
     stats = {"valid_runs": 0, "invalid_runs": 0, "invalid_refused": 0, "kinds": {}, "rejected_programs": 0}
